@@ -1022,7 +1022,7 @@ func C10() *check.Property {
 		Title:    "Subjects follow their sequential definition and are linearizable",
 		Patterns: CorePatterns,
 		Scope:    []string{ro},
-		Rules:    []check.Rule{ruleSubjectGuardedBy(), ruleSubjectGate(), ruleSubjectTerminal(), ruleReplayBeforeTerminal(), ruleUnicastSingle(), ruleSiblingTable(), ruleSubjectBroadcastLocked(), ruleCallbackReentrancy(), ruleSubjectDelivers(), ruleNilGuardPolarity(), ruleQueueFIFO()},
+		Rules:    []check.Rule{ruleSubjectGuardedBy(), ruleSubjectGate(), ruleSubjectTerminal(), ruleReplayBeforeTerminal(), ruleUnicastSingle(), ruleSiblingTable(), ruleSubjectBroadcastLocked(), ruleCallbackReentrancy(), ruleSubjectDelivers(), ruleNilGuardPolarity(), ruleQueueFIFO(), ruleFinalizerDiscipline()},
 		Explanation: "Structural clauses only. Linearizability over concurrent histories is NOT decided. What is decided is the locking and ordering discipline that the sequential definition and the linearization argument rest on: all mutable subject state is accessed under one mutex " +
 			"(GUARDED-BY, lock-set data-flow); effects are gated on the open status, the terminal state is stored before the broadcast and observers are dropped at termination; registration happens under the gate and is undone by the subscription's teardown; " +
 			"the backlog is replayed before a stored terminal (REPLAY-BEFORE-TERMINAL); unicast installs its observer only when none is present; broadcasts happen under the mutex; and the four broadcasting siblings agree feature by feature (SIBLING-TABLE).",
